@@ -20,6 +20,8 @@ import (
 	"context"
 	"errors"
 	"sync"
+
+	"github.com/codenotary/immudb/embedded/simhook"
 )
 
 var ErrMaxWaitessLimitExceeded = errors.New("watchers: max waiting limit exceeded")
@@ -146,6 +148,9 @@ func (w *WatchersHub) WaitFor(ctx context.Context, t uint64) error {
 		break
 	case <-ctx.Done():
 		cancelled = true
+	}
+	if simhook.Enabled {
+		simhook.Yield("whub-wake")
 	}
 
 	w.mutex.Lock()
